@@ -1,4 +1,4 @@
-//go:build verif && vrender
+//go:build verif && (vrender || vpub)
 
 package main
 
